@@ -350,7 +350,9 @@ def run_gwversions(job, res):
                 res.violation(f"gateway-version-table:want={want}:smartsleep-trigger={'2.2' if two_two else 'pre-2.2'}",
                               f"protocol_version {v!r} should behave like {want}, pre-sleep notification handling says {'2.2' if two_two else 'older'}", case)
     if job["part"] == 0:
-        for v, want in (("abc", "1.4"), ("", "1.4"), (None, "1.4"), (2.0, "2.0"), (1.5, "1.5"), ("1.3", "1.4"), ("0.9.9", "1.4")):
+        for v, want in (("abc", "1.4"), ("", "1.4"), (None, "1.4"), (2.0, "2.0"), (1.5, "1.5"), ("1.3", "1.4"), ("0.9.9", "1.4"),
+                        # numbers and major-only strings, by numeric comparison
+                        (2, "2.0"), ("2", "2.0"), (3, "2.2"), ("3", "2.2"), (1, "1.4"), ("1", "1.4"), (2.1, "2.1"), (2.2, "2.2"), (22, "2.2"), ("10", "2.2")):
             case = {"kind": "gwversion", "version": repr(v)}
             res.evals += 1
             try:
@@ -364,7 +366,14 @@ def run_gwversions(job, res):
             res.count("gateway_versions_judged")
             if got != ("2.x" if want >= "2.0" else want):
                 res.violation(f"gateway-version-table:want={want}:got={got}:special", f"protocol_version {v!r} should select {want}, behaves like {got}", case)
-        for v in ("v2.2", "2.2.0-rc1", 2, "2"):
+            elif want >= "2.0":
+                try:
+                    if behaviour_transcript(v, "sync") != behaviour_transcript(want, "sync"):
+                        res.violation(f"gateway-version-conversation-differs:want={want}:special", f"protocol_version {v!r} should select the {want} behaviour, but the same conversation goes differently than with {want!r}", case)
+                    res.count("gateway_version_conversations_compared")
+                except Exception as exc:
+                    res.violation(f"gateway-version-raises:{type(exc).__name__}", f"Gateway(protocol_version={v!r}) raised {type(exc).__name__}: {exc}", case)
+        for v in ("v2.2", "2.2.0-rc1", "2.", " 2.0"):
             try:
                 BaseAsyncGateway(AsyncRecT(), protocol_version=v).logic("1;255;0;0;17;2.0")
                 res.count("undecided_versions_executed")
@@ -378,9 +387,12 @@ def run_nodeversions(job, res):
     from mysensors import BaseAsyncGateway
     from ..drive import AsyncRecT
 
-    for (major, minor, patch) in version_strings(job["part"]):
-        v = f"{major}.{minor}" + ("" if patch is None else f".{patch}")
-        want = expected_table(major, minor, patch)
+    todo = [(f"{major}.{minor}" + ("" if patch is None else f".{patch}"), expected_table(major, minor, patch), major, minor, patch)
+            for (major, minor, patch) in version_strings(job["part"])]
+    if job["part"] == 0:
+        # a node built with a library that reports only the major number
+        todo += [("2", "2.0", 2, 0, None), ("3", "2.2", 3, 0, None), ("10", "2.2", 10, 0, None)]
+    for (v, want, major, minor, patch) in todo:
         case = {"kind": "nodeversion", "version": v}
         res.evals += 1
         try:
@@ -704,6 +716,6 @@ def finish(agg, tier):
                                                                   ("real_host_connections[ipv4]", c.get("real_host_connections[ipv4]", 0), 2)]) + [
                    ("persistence_effects_judged", c.get("persistence_effects_judged", 0), 24)],
         "assumptions": ["documented options = README + constructor signatures; 2.0 and 2.1 tables are behaviourally identical and "
-                        "are judged as one class; 'v2.2', '2.2.0-rc1', 2 and '2' are executed but their table is not judged"],
+                        "are judged as one class; 'v2.2', '2.2.0-rc1', '2.' and ' 2.0' are executed but their table is not judged; numbers and major-only strings (2, '2', 3, 22) are judged by numeric comparison"],
         "show": ["constructed", "gateway_versions_judged", "node_versions_judged", "readme_snippets_run", "connect_attempts_observed", "real_host_connections"],
     }
